@@ -1,8 +1,47 @@
 import PyPhysim.Model.Proto
-open PyPhysim.Proto
+import PyPhysim.Model.C01
+import PyPhysim.Model.C16
+open PyPhysim.Proto PyPhysim.C01 PyPhysim.C16
 
--- stub: replaced when the C16 model is written
+instance : NatCast Float := ⟨Float.ofNat⟩
+instance : IntCast Float := ⟨Float.ofInt⟩
+
+def fdist (a b : Float × Float) : Float :=
+  Float.sqrt ((a.1 - b.1) * (a.1 - b.1) + (a.2 - b.2) * (a.2 - b.2))
+
+def minDist (pts : Array (Float × Float)) : Float := Id.run do
+  let mut best : Float := 1.0e300
+  for i in [0:pts.size] do
+    for j in [i+1:pts.size] do
+      let d := fdist pts[i]! pts[j]!
+      if d < best then best := d
+  return best
+
 def handle : List String → String
+  | ["psk", m, s] => match m.toNat?, parseFloat? s with
+      | some m, some s => "c=" ++ showFloat 2.0 ++ " arg=" ++ showFloat (pskArg m s)
+      | _, _ => "bad-op"
+  | ["bpsk", s] => match parseFloat? s with
+      | some s => "c=" ++ showFloat 1.0 ++ " arg=" ++ showFloat (bpskArg s)
+      | none => "bad-op"
+  | ["qam", m, s] => match m.toNat?, parseFloat? s with
+      | some m, some s => "c=" ++ showFloat (qamCoef m) ++ " arg=" ++ showFloat (qamArg m s)
+      | _, _ => "bad-op"
+  | ["qamser", p] => match parseFloat? p with   -- SER from Psc
+      | some p => showFloat (1.0 - (1.0 - p) * (1.0 - p))
+      | none => "bad-op"
+  | ["per", b, l] => match parseFloat? b, l.toNat? with
+      | some b, some l => showFloat (per b l)
+      | _, _ => "bad-op"
+  | ["se", k, p] => match parseFloat? k, parseFloat? p with
+      | some k, some p => showFloat (spectralEff k p)
+      | _, _ => "bad-op"
+  | ["dmin", "psk", m] => match m.toNat? with
+      | some m => showFloat (minDist (pskNatural (α := Float) m 0.0).toArray)
+      | none => "bad-op"
+  | ["dmin", "qam", l] => match l.toNat? with
+      | some l => showFloat (minDist (qamNatural (α := Float) l).toArray)
+      | none => "bad-op"
   | _ => "bad-op"
 
 def main : IO Unit := runDriver handle
